@@ -65,16 +65,23 @@ func RunDirected(name string, variant int, ruleset string, n int, scheme string,
 		Profile: "directed:" + name, Steps: 0, ByzRules: map[hotstuff.ID]string{}, Label: fmt.Sprintf("%s/%d", name, variant)}
 	byzID := hotstuff.ID(n) // the last replica is the scripted Byzantine one
 	cfg.Scripted = []hotstuff.ID{byzID}
+	if name == "forged-qc-chain" && n >= 7 && variant >= 2 {
+		cfg.Scripted = []hotstuff.ID{byzID - 1, byzID} // two colluding Byzantine replicas (f = 2): a silent accomplice lends its key
+	}
 	c, err := NewCluster(cfg, rng, r)
 	if err != nil {
 		r.Inconclusive("cannot build directed cluster: " + err.Error())
 		return nil
 	}
 	enable(c.Mon)
-	var byz *Actor
+	var byz, accomplice *Actor
 	for _, a := range c.Actors {
 		if a.Kind == Scripted {
-			byz = a
+			if a.ID == byzID {
+				byz = a
+			} else {
+				accomplice = a
+			}
 		}
 	}
 	proposed := map[hotstuff.View]bool{}
@@ -177,6 +184,25 @@ func RunDirected(name string, variant int, ruleset string, n int, scheme string,
 				c.sendAll(byz, hotstuff.ProposeMsg{ID: byz.ID, Block: b})
 			}
 			sig := c.sigRepeated(byz, b.ToBytes(), q)
+			if accomplice != nil {
+				// the two colluders' genuine signatures listed alternately: q entries, two distinct signers, no adjacent repeat
+				sa, ea := byz.M.Auth.Sign(b.ToBytes())
+				sb, eb := accomplice.M.Auth.Sign(b.ToBytes())
+				if ea == nil && eb == nil {
+					var ids []hotstuff.ID
+					var raws [][]byte
+					for i := 0; i < q; i++ {
+						if i%2 == 0 {
+							ids, raws = append(ids, accomplice.ID), append(raws, sb.ToBytes())
+						} else {
+							ids, raws = append(ids, byz.ID), append(raws, sa.ToBytes())
+						}
+					}
+					if il := c.sigInterleaved(ids, raws); il != nil {
+						sig = il
+					}
+				}
+			}
 			if sig == nil {
 				break
 			}
